@@ -24,8 +24,8 @@ import (
 	cdctypes "github.com/pokt-network/pocket-core/codec/types"
 	"github.com/pokt-network/pocket-core/crypto"
 	sdk "github.com/pokt-network/pocket-core/types"
-	authtypes "github.com/pokt-network/pocket-core/x/auth/types"
 	appstypes "github.com/pokt-network/pocket-core/x/apps/types"
+	authtypes "github.com/pokt-network/pocket-core/x/auth/types"
 	nodestypes "github.com/pokt-network/pocket-core/x/nodes/types"
 	pctypes "github.com/pokt-network/pocket-core/x/pocketcore/types"
 	"github.com/willf/bloom"
@@ -37,9 +37,9 @@ type wrapSpec struct {
 }
 
 var wrappers = map[reflect.Type]wrapSpec{
-	reflect.TypeOf(authtypes.StdTx{}):        {"x.auth.ProtoStdTx", map[string]int{"Msg": 1, "Fee": 2, "Signature": 3, "Memo": 4, "Entropy": 5}},
-	reflect.TypeOf(authtypes.StdSignature{}): {"x.auth.ProtoStdSignature", map[string]int{"PublicKey": 1, "Signature": 2}},
-	reflect.TypeOf(authtypes.BaseAccount{}):  {"x.auth.ProtoBaseAccount", map[string]int{"Address": 1, "PubKey": 2, "Coins": 3}},
+	reflect.TypeOf(authtypes.StdTx{}):         {"x.auth.ProtoStdTx", map[string]int{"Msg": 1, "Fee": 2, "Signature": 3, "Memo": 4, "Entropy": 5}},
+	reflect.TypeOf(authtypes.StdSignature{}):  {"x.auth.ProtoStdSignature", map[string]int{"PublicKey": 1, "Signature": 2}},
+	reflect.TypeOf(authtypes.BaseAccount{}):   {"x.auth.ProtoBaseAccount", map[string]int{"Address": 1, "PubKey": 2, "Coins": 3}},
 	reflect.TypeOf(authtypes.ModuleAccount{}): {"x.auth.ProtoModuleAccount", map[string]int{"BaseAccount": 1, "Name": 2, "Permissions": 3}},
 	reflect.TypeOf(nodestypes.Validator{}): {"x.nodes.ProtoValidator", map[string]int{"Address": 1, "PublicKey": 2, "Jailed": 3, "Status": 4, "Chains": 5,
 		"ServiceURL": 6, "StakedTokens": 7, "UnstakingCompletionTime": 8, "OutputAddress": 9, "RewardDelegators": 10}},
